@@ -6,11 +6,11 @@ import (
 	"time"
 )
 
-var tBuild, tLint, tSer time.Duration
+var tBuild, tLint, tSer, tEnum, tSelect time.Duration
 
 func reportTiming() {
 	if debug {
-		fmt.Fprintln(os.Stderr, "build", tBuild, "lint", tLint, "serialise", tSer)
+		fmt.Fprintln(os.Stderr, "build", tBuild, "lint", tLint, "serialise", tSer, "enumerate", tEnum, "select", tSelect)
 		for k, v := range perUse {
 			fmt.Fprintln(os.Stderr, k, v/time.Duration(perUseN[k]), perUseN[k])
 		}
